@@ -518,7 +518,7 @@ def LinePost (cfg : Cfg) (s : St) (acc : Bytes) (p : Res Bytes × St) : Prop :=
       x = acc ++ takeLine (rest cfg s) ∧
       rest cfg p.2 = (rest cfg s).drop (takeLine (rest cfg s)).length ∧
       p.2.bytesRead = s.bytesRead + (takeLine (rest cfg s)).length ∧
-      (Enough cfg s → cfg.length.isSome = true → p.2.done = (s.done || !hasLF (rest cfg s))) ∧
+      (Enough cfg s → cfg.length.isSome = true → s.done = false → p.2.done = !hasLF (rest cfg s)) ∧
       (over cfg s.bytesRead = false → over cfg p.2.bytesRead = false))
 
 theorem readlineLoop_post (cfg : Cfg) (hb : 1 ≤ cfg.bufsize) (chunk : Nat) (hc : 1 ≤ chunk) :
@@ -562,8 +562,8 @@ theorem readlineLoop_post (cfg : Cfg) (hb : 1 ≤ cfg.bufsize) (chunk : Nat) (hc
         subst hx
         refine ⟨by simp [hR, takeLine], ?_, by simp [hR, takeLine, e3, hd0], ?_, e5⟩
         · rw [e2, hR]; simp
-        · intro he hl
-          rw [e4 he hl, hR]
+        · intro he hl hd
+          rw [e4 he hl, hR, hd]
           have := (wzero he hl).mpr hR
           simp [this, hasLF]
       · simp only [hde, Bool.false_eq_true, if_false]
@@ -583,7 +583,8 @@ theorem readlineLoop_post (cfg : Cfg) (hb : 1 ≤ cfg.bufsize) (chunk : Nat) (hc
             rw [e3, d1]; simp; omega
           have hll : l.length + r.length = w := by rw [← hdl, d1]; simp
           obtain ⟨ia, ib⟩ := i1
-          have hrest' : rest cfg { s1 with buffer := r ++ s1.buffer, bytesRead := s1.bytesRead - r.length }
+          have hrest' : rest cfg { s1 with buffer := r ++ s1.buffer, bytesRead := s1.bytesRead - r.length,
+                                           done := if r.isEmpty then s1.done else false }
               = r ++ rest cfg s1 := by
             simp [rest, tailOf, cap]
           refine ⟨⟨by simp; omega, ib⟩, f1, ?_, by simp, ?_, by simp, ?_⟩
@@ -599,9 +600,9 @@ theorem readlineLoop_post (cfg : Cfg) (hb : 1 ≤ cfg.bufsize) (chunk : Nat) (hc
               conv => rhs; rw [d1, List.append_assoc]
               simp
             · simp only; rw [e3, d1]; simp; omega
-            · intro he hl
+            · intro he hl hd
               simp only
-              rw [e4 he hl, hsplit, hasLF_append, d3]
+              rw [e4 he hl, hsplit, hasLF_append, d3, hd]
               simp [hrem0]
         | none =>
           simp only
@@ -626,10 +627,11 @@ theorem readlineLoop_post (cfg : Cfg) (hb : 1 ≤ cfg.bufsize) (chunk : Nat) (hc
               conv => rhs; rw [hsplit]
               simp
             · rw [k3, e3, hline]; simp; omega
-            · intro he hl
-              rw [k4 (en1 he) hl, e4 he hl]
+            · intro he hl hd
+              have hd1 : s1.done = false := by rw [e4 he hl, hd]; simp [hrem0]
+              rw [k4 (en1 he) hl hd1]
               conv => rhs; rw [hsplit, hasLF_append, n1]
-              simp [hrem0]
+              simp
 
 theorem rest_length_le (cfg : Cfg) (s : St) : (rest cfg s).length ≤ s.buffer.length + s.src.length := by
   rw [rest_length]; omega
